@@ -172,9 +172,22 @@ func oneofTypeRef(node *sourcewalk.OneofNode) *TypeRef {
 }
 
 func enumTypeRef(node *sourcewalk.EnumNode) *TypeRef {
+	// numbers are assigned by position, exactly as the enum is emitted
+	// (visitEnumNode): an explicit UNSPECIFIED first, then idx+1
 	valMap := make(map[string]int32)
-	for _, value := range node.Schema.Options {
-		valMap[node.Schema.Prefix+value.Name] = value.Number
+	fullName := func(name string) string {
+		if strings.HasPrefix(name, node.Schema.Prefix) {
+			return name
+		}
+		return node.Schema.Prefix + name
+	}
+	options := node.Schema.Options
+	if len(options) > 0 && options[0].Number == 0 && strings.HasSuffix(options[0].Name, "UNSPECIFIED") {
+		valMap[fullName(options[0].Name)] = 0
+		options = options[1:]
+	}
+	for idx, value := range options {
+		valMap[fullName(value.Name)] = int32(idx + 1)
 	}
 	return &TypeRef{
 		Name:     node.NameInPackage(),
